@@ -234,6 +234,10 @@ class Fxp():
         self._update_dtype()
 
         # store the value
+        if raw and not _initialized and isinstance(n_frac, int) and isinstance(self.n_frac, int) and self.n_frac != n_frac \
+                and isinstance(val, (int, np.integer, list, tuple, np.ndarray)) and np.asarray(val).dtype.kind in 'iuO':
+            # (the word was limited and the fraction length shortened by the size search: the raw value was given for the fraction length asked)
+            val = utils.scale_raw(np.asarray(val) if not isinstance(val, int) else val, self.n_frac - n_frac)
         self.set_val(val, raw=raw)
 
         if dtype is not None and complex_flag and self.vdtype != complex:
